@@ -248,6 +248,9 @@ class NumberedObjectCollection(ABC):
         if not isinstance(step, int):
             raise TypeError("The step number must be an int")
         number = obj.number
+        if any(obj is member for member in self._objects):
+            # already a member: there is nothing to append, and it must not be renumbered
+            return number
         if self._problem:
             obj.link_to_problem(self._problem)
         try:
